@@ -92,6 +92,62 @@ def broker_mc(run, prop):
         run.add(states=states, transitions=trans, exhaustive=True, design_configs=configs, design_witnesses=wit)
 
 
+CLIENT_INV = "FutureTruth KeepUntilAck CallbackOnce AckOnlyIfAccepted"
+CLIENT_CFGS = {
+    # outgoing: persistent session, QoS 1 and QoS 2 publishes, the connection cut anywhere, Close
+    "out": dict(app='Call("connect", FALSE), Call("publish", Msg("p1", 1)), Call("publish", Msg("p2", 2)), Call("close", 0)', broker="", refuse="", cuts=1,
+                witnesses=["W_NoCompleted", "W_NoCancelled"]),
+    # outgoing across a reconnect: whatever is still recorded is resent (flagged duplicate) by the next client object
+    "resume": dict(app='Call("connect", FALSE), Call("publish", Msg("p1", 2)), Call("close", 0), Call("newclient", 0), Call("connect", FALSE), Call("subscribe", 0), Call("close", 0)',
+                   broker="", refuse="", cuts=1, witnesses=["W_NoResend", "W_NoCompleted"]),
+    # incoming: QoS 1 and QoS 2 deliveries with the release, the connection cut anywhere
+    "in": dict(app='Call("connect", FALSE), Call("publish", Msg("p1", 0)), Call("disconnect", 0)', broker='BPub(1, "b1", 1), BPub(2, "b2", 2), BRel(2)', refuse="", cuts=1,
+               witnesses=["W_NoCallback"]),
+    # incoming with an application callback that refuses the first / second message
+    "refuse": dict(app='Call("connect", FALSE), Call("close", 0)', broker='BPub(1, "b1", 1), BPub(2, "b2", 2), BRel(2)', refuse="1, 2", cuts=0,
+                   witnesses=["W_NoRefusal"]),
+}
+CLIENT_FOR = {"C09": (["out", "resume"], []), "C10": (["in", "refuse"], [])}
+
+
+def client_mc(run, prop):
+    """ClientMC.tla: Client.tla closed with an application script, a conformant scripted broker, cuts and reconnects."""
+    wd, tier = run.wd, run.tier
+    quick, thorough = CLIENT_FOR.get(prop, ([], []))
+    states = trans = 0
+    configs, wit = [], []
+    race = '"ClientDieVsApiRace"'
+
+    def one(c, inv, props="", dev=race, cuts=None, timeout=3000):
+        cfg = _cfg("ClientMC.cfg", DEV=dev, REFUSE=c["refuse"], CUTS=str(c["cuts"] if cuts is None else cuts), INV=inv, PROPS=props)
+        if not props:
+            cfg = cfg.replace("PROPERTIES \n", "")
+        return lib.tlc(wd, "ClientMC1", cfg, timeout=timeout, defs={"APP": "<<%s>>" % c["app"], "BROKER": "<<%s>>" % c["broker"]})
+
+    for n in quick + (thorough if tier == "thorough" else []):
+        c = CLIENT_CFGS[n]
+        cuts = c["cuts"] + (1 if tier == "thorough" else 0)
+        # the code as it is (the API-versus-die race of the known finding included): everything but NoPendingAfterEnd
+        r = one(c, CLIENT_INV, "Returns", cuts=cuts)
+        _expect(r, "ClientMC " + n)
+        states += r.distinct; trans += r.generated
+        configs.append("%s (%d cuts): %d states, %d transitions" % (n, cuts, r.distinct, r.generated))
+        # without that race (the guard as an assumption) no future is left pending when the client has ended
+        r2 = one(c, CLIENT_INV + " NoPendingAfterEnd", dev="", cuts=cuts)
+        _expect(r2, "ClientMC %s without the race" % n)
+        states += r2.distinct; trans += r2.generated
+        for w in c.get("witnesses", []):
+            rw = one(c, w, cuts=cuts, timeout=900)
+            _expect(rw, "ClientMC %s witness %s" % (n, w), w)
+            wit.append("%s: %s reachable" % (n, w[2:]))
+    if prop == "C09":
+        # the known finding reproduced at design level: with the race a stored future stays pending after the client ended
+        rk = one(CLIENT_CFGS["out"], "NoPendingAfterEnd", timeout=900)
+        _expect(rk, "ClientMC known finding", "NoPendingAfterEnd")
+        wit.append("out: known finding ClientDieVsApiRace violates NoPendingAfterEnd at design level")
+    run.add(states=states, transitions=trans, exhaustive=True, design_configs=configs, design_witnesses=wit)
+
+
 def _cfg(name, **subst):
     t = open(os.path.join(lib.SPEC, name)).read()
     for k, v in subst.items():
